@@ -1,13 +1,19 @@
 #!/usr/bin/env python3
-"""Apply a one-off textual mutation to /repo, run a check, always revert.
+"""Apply a one-off textual mutation to a scratch worktree of /repo
+(/tmp/wt_mut, used through VERIF_REPO), run checks, always revert.  /repo
+itself is never touched.
 
-usage: mut.py <relpath> <old> <new> <ID> [tier]   (old must occur exactly once
-unless prefixed by N: to pick the N-th occurrence, 0-based)
+usage: mut.py <relpath> <old> <new> <ID[,ID]> [tier]   (old must occur exactly
+once unless prefixed by N: to pick the N-th occurrence, 0-based)
 """
-import os, subprocess, sys, re
+import os, re, subprocess, sys
+W = '/tmp/wt_mut'
 rel, old, new, pid = sys.argv[1:5]
 tier = sys.argv[5] if len(sys.argv) > 5 else 'quick'
-path = '/repo/' + rel
+if not os.path.isdir(W):
+  subprocess.run(['git', '-C', '/repo', 'worktree', 'add', '-q', '--detach', W, 'main'], check=True)
+subprocess.run('git -C %s checkout -q --detach main && git -C %s checkout -- .' % (W, W), shell=True, check=True)
+path = os.path.join(W, rel)
 src = open(path).read()
 idx = 0
 m = re.match(r'^(\d+):', old)
@@ -22,14 +28,14 @@ for _ in range(idx + 1):
 mut = src[:pos] + new + src[pos + len(old):]
 try:
   open(path, 'w').write(mut)
-  rc = 0
   for p in pid.split(','):
-    r = subprocess.run(['/verif/check', p, '--tier', tier], capture_output=True, text=True, env=dict(os.environ, VERIF_NO_EVIDENCE='1'))
+    r = subprocess.run(['/verif/check', p, '--tier', tier], capture_output=True, text=True,
+                       env=dict(os.environ, VERIF_REPO=W))
     out = [l for l in r.stdout.splitlines() if l.startswith(('VIOLATION', 'OK', 'FAIL', 'KNOWN', '  key'))]
-    print('\n'.join(out[:8]))
-    err = [l for l in r.stderr.splitlines() if 'HARNESS' in l or 'Error' in l]
-    print('\n'.join(err[:5]))
-    print('MUTANT %s rc=%d  [%s :: %r -> %r]' % (p, r.returncode, rel, old[:50], new[:50]))
+    keys = [l for l in out if l.startswith('  key')]
+    print('\n'.join(keys[:3]))
+    err = [l for l in r.stderr.splitlines() if 'HARNESS' in l]
+    print('\n'.join(err[:3]))
+    print('MUTANT %s rc=%d  [%s :: %r -> %r]' % (p, r.returncode, rel, old[:60], new[:60]))
 finally:
   open(path, 'w').write(src)
-  subprocess.run(['git', '-C', '/repo', 'diff', '--quiet']) 
